@@ -62,6 +62,8 @@ class Outcome:
         self.violations: List[str] = []      # replay paths
         self.known_hit: Dict[str, dict] = {}
         self.inconclusive: List[str] = []
+        self.undecided: List[str] = []       # harnesses / paths that hit their time cap: coverage loss, not a verdict
+        self.total = 0                       # number of obligations attempted (for the undecided ratio)
         self.unreproduced: List[str] = []
         self.notes: List[str] = []
 
@@ -84,14 +86,23 @@ class Outcome:
     def inconclusive_item(self, what):
         self.inconclusive.append(what)
 
+    def undecided_item(self, what):
+        """a time/memory cap was hit: never counted as held; tolerated up to 20 % of the obligations"""
+        self.undecided.append(what)
+
     def finish(self) -> int:
         for k in self.known_hit.values():
             print(f'KNOWN-FINDING: property={self.prop} {k["what"]}')
         for w in self.inconclusive[:30]:
             print(f'INCONCLUSIVE property={self.prop} {w}')
+        for w in self.undecided[:30]:
+            print(f'UNDECIDED property={self.prop} {w}')
         if self.violations:
             return 1
         if self.inconclusive or self.unreproduced:
+            return 2
+        if self.undecided and len(self.undecided) > 0.2 * max(self.total, 1):
+            print(f'INCONCLUSIVE property={self.prop} {len(self.undecided)} of {self.total} obligations hit their time cap')
             return 2
         return 0
 
